@@ -43,6 +43,16 @@ DESC = {
  "r2C18": ("From<f64> for Number flattened into guard clauses that NaN slips through: NaN -> Integer(0)", "NaN"),
  "r2C19": ("shared literal parser with a 16-digit fast path (u64 mantissa / 10^scale): double rounding", "literal with exactly 16 significant digits and a fraction"),
  "r2C20": ("eval_f64 strips the sign of a zero result at the top level only", "subexpression worth -0.0 in a context sensitive to the sign of zero"),
+ "r3C01": ("eval_number avg clamps the mean to [min, max] of its arguments with f64::clamp: panics when every argument is NaN", "`avg(@)` with a NaN placeholder / `avg(0/0)`"),
+ "r3C02": ("eval_i64 sqrt polished by integer Newton steps 'until it settles': oscillates for k^2-1 above 2^53", "`sqrt(4611686018427387903)` (perfect square minus one above 2^53)"),
+ "r3C03": ("superscript digit table replaced by a range arm: U+2071..U+2073 accepted as digits after a superscript digit", "`2²ⁱ` - a look-alike code point right after a genuine superscript digit"),
+ "r3C04": ("shared tokenizer helper folds a run of + - signs into one token: a binary sign merges with the prefix sign of its operand", "`5--3^2`: binary sign, prefix sign, then ^ or a superscript with an even exponent"),
+ "r3C12": ("a literal continues an implicit product only after `)` or `!` - the floor / ceiling closers are forgotten", "`⌊2.5⌋3`: floor/ceil group directly followed by a literal (f64, decimal, number)"),
+ "r3C13": ("superscript tokens get precedence Negative instead of Power in all evaluators: `2^3²` = 2^(3²)", "superscript run on the right operand of ^"),
+ "r3C14": ("eval_complex wrapper rebuilds a negative-real placeholder with imaginary part +0.0", "placeholder (-4, -0.0) and a bit-exact or branch-cut-sensitive observation"),
+ "r3C16": ("recursion-depth guard counted in one process-wide AtomicUsize shared by all threads", "several deep evaluations in flight at the same instant (summed depth above 4096)"),
+ "r3C19": ("eval_f64 tokenizer reuses a scratch string; the `.DIGITS` arm appends without clearing", "a leading-point literal after another literal: `2*.5`"),
+ "r3C20": ("eval_number parser splices min-in-min / max-in-max into one argument list", "NaN in a non-last slot of the inner call, which is not the outer call's first argument"),
 }
 rows = []
 for d in sorted(glob.glob(os.path.join(V, "seeded", "*"))):
